@@ -1,1 +1,32 @@
-(* C12 -- theorems to be stated here. *)
+(* C12 -- in-place and buffer-to-buffer operation give identical results.
+   Block level: for every block-mode backend as dispatched by the interpreter, every schedule, the
+   in-place run on data ds and the buffer-to-buffer run from ds into ANY output contents produce
+   the same output blocks and leave the same chaining state.  The model's bodies are written with
+   read/write primitives whose meaning depends on aliasing (Cell.v), so this is not definitional. *)
+From BM Require Import BlockModes Spec BlockModes_proofs Plumbing Interp Interp_proofs.
+
+Theorem C12_block_modes : forall (C : cipher) (k : bkind) sched st ds junk,
+  length junk = length ds -> sched_total sched = length ds ->
+  let r_ip := run_sched (bm_single C k) (bm_w C k) (bm_par C k) st sched (cells_ip ds) in
+  let r_b2b := run_sched (bm_single C k) (bm_w C k) (bm_par C k) st sched (cells_b2b ds junk) in
+  fst r_ip = fst r_b2b /\ map cout (snd r_ip) = map cout (snd r_b2b).
+Proof.
+  intros C k sched st ds junk Hj Hs. cbn zeta.
+  rewrite !bm_sched_fold by (unfold cells_ip; rewrite ?map_length, ?cells_b2b_length; auto).
+  apply bm_fold_input. rewrite map_rd_in_ip, map_rd_in_b2b; auto.
+Qed.
+Print Assumptions C12_block_modes.
+
+(* more generally: any two cell lists presenting the same logical input *)
+Theorem C12_same_input : forall (C : cipher) (k : bkind) st cs1 cs2, map rd_in cs1 = map rd_in cs2 ->
+  fst (fold_cells (bm_single C k) st cs1) = fst (fold_cells (bm_single C k) st cs2) /\
+  map cout (snd (fold_cells (bm_single C k) st cs1)) = map cout (snd (fold_cells (bm_single C k) st cs2)).
+Proof. exact bm_fold_input. Qed.
+Print Assumptions C12_same_input.
+
+(* the primitives really distinguish the two forms: a body that read its input after writing its
+   output would see different data in place and buffer-to-buffer *)
+Example C12_primitives_distinguish :
+  rd_in (wr_out (cell_ip [1%N]) [2%N]) = [2%N] /\ rd_in (wr_out (cell_b2b [1%N] [9%N]) [2%N]) = [1%N].
+Proof. split; reflexivity. Qed.
+Print Assumptions C12_primitives_distinguish.
